@@ -3,6 +3,7 @@ C10 — queued instructions are invisible until the next step.
 Property theorems only.
 -/
 import Bourse.Model.Env
+import Bourse.Lemmas.EnvInv
 
 namespace Bourse.Props.C10
 open Bourse
@@ -108,6 +109,135 @@ theorem cache_inv (e : MEnv) (g : Xoro) (op : MEnv.EOp) (h : CacheOk e) (hf : (e
     cases on
     · simp only [MEnv.apply, MEnv.disableTrading]; rw [(toggle_level2 _ _).2]; exact h
     · simp only [MEnv.apply, MEnv.enableTrading]; rw [(toggle_level2 _ _).1]; exact h
+
+/-! ### Whole interleavings: any number of submissions between two steps -/
+
+/-- `b'` is `b` with some orders of status New appended to its table and nothing else changed. -/
+def BookExt (b b' : Book) : Prop :=
+  b'.bid = b.bid ∧ b'.ask = b.ask ∧ b'.tick = b.tick ∧ b'.t = b.t ∧ b'.trades = b.trades ∧
+  b'.tradeVol = b.tradeVol ∧ b'.trading = b.trading ∧ b'.stamp = b.stamp ∧
+  ∃ news : List Entry, b'.orders = b.orders ++ news ∧ ∀ x ∈ news, x.order.status = .new
+
+theorem BookExt.refl (b : Book) : BookExt b b :=
+  ⟨rfl, rfl, rfl, rfl, rfl, rfl, rfl, rfl, [], by simp, by simp⟩
+
+theorem BookExt.trans {a b c : Book} (h1 : BookExt a b) (h2 : BookExt b c) : BookExt a c := by
+  obtain ⟨a1, a2, a3, a4, a5, a6, a7, a8, n1, e1, s1⟩ := h1
+  obtain ⟨b1, b2, b3, b4, b5, b6, b7, b8, n2, e2, s2⟩ := h2
+  refine ⟨b1.trans a1, b2.trans a2, b3.trans a3, b4.trans a4, b5.trans a5, b6.trans a6, b7.trans a7, b8.trans a8,
+    n1 ++ n2, by rw [e2, e1, List.append_assoc], ?_⟩
+  intro x hx
+  rcases List.mem_append.mp hx with h | h
+  · exact s1 x h
+  · exact s2 x h
+
+theorem BookExt.of_create (b : Book) (sd : Side) (vol tr : Nat) (p : Option Nat) :
+    BookExt b (b.createOrder sd vol tr p).1 := by
+  obtain ⟨h1, h2, h3, h4, h5, h6, h7, h8, h9⟩ := create_only_appends b sd vol tr p
+  refine ⟨h1, h2, h3, h4, h5, h6, h7, h8, ?_⟩
+  rcases h9 with h | ⟨e, he, hs, _⟩
+  · exact ⟨[], by simp [h], by simp⟩
+  · exact ⟨[e], he, by simpa using hs⟩
+
+/-- Every book of `m'` extends the book of `m` with the same index. -/
+def MarketExt (m m' : Market) : Prop :=
+  m'.books.length = m.books.length ∧
+  ∀ (a : Nat) (b : Book), m.books[a]? = some b → ∃ b', m'.books[a]? = some b' ∧ BookExt b b'
+
+theorem MarketExt.refl (m : Market) : MarketExt m m := ⟨rfl, fun _ b h => ⟨b, h, BookExt.refl b⟩⟩
+
+theorem MarketExt.trans {a b c : Market} (h1 : MarketExt a b) (h2 : MarketExt b c) : MarketExt a c := by
+  refine ⟨h2.1.trans h1.1, ?_⟩
+  intro i x hx
+  obtain ⟨y, hy, e1⟩ := h1.2 i x hx
+  obtain ⟨z, hz, e2⟩ := h2.2 i y hy
+  exact ⟨z, hz, e1.trans e2⟩
+
+theorem MarketExt.of_create (m : Market) (a : Nat) (sd : Side) (vol tr : Nat) (p : Option Nat) :
+    MarketExt m (m.createOrder a sd vol tr p).1 := by
+  simp only [Market.createOrder, Market.stepOn]
+  split
+  · rename_i b hb
+    refine ⟨by simp, ?_⟩
+    intro i x hx
+    by_cases hia : i = a
+    · subst hia
+      rw [hb] at hx; injection hx with hx; subst hx
+      have hlt := (List.getElem?_eq_some_iff.mp hb).1
+      exact ⟨(b.step (.create sd vol tr p)).1, by simp [hlt], BookExt.of_create b sd vol tr p⟩
+    · exact ⟨x, by simp [List.getElem?_set, Ne.symm hia, hx], BookExt.refl x⟩
+  · exact MarketExt.refl m
+
+/-- Submissions: new orders, queued cancellations, queued modifications (no step, no switch). -/
+def IsSubmission : MEnv.EOp → Prop
+  | .submit .. | .qcancel .. | .qmodify .. => True
+  | _ => False
+
+/-- **Between steps, any sequence of submissions changes nothing observable except that each newly
+created order appears in its asset's order list with status New.** After ANY number of `place_order` /
+`cancel_order` / `modify_order` calls on an environment (instructions that would trade, cancel or
+re-price at once if applied directly included): the cached level-2 snapshot, every recorded series,
+the per-step traded volumes and the generator are literally unchanged; every book has the same two
+sides (hence every market-data view, `views_depend_on_sides`), clock, trade log, traded-volume counter,
+trading flag and stamp counter as before, and its order table is the old one followed by New orders. -/
+theorem submissions_invisible (s : MEnv × Xoro) (ops : List MEnv.EOp) (hs : ∀ op ∈ ops, IsSubmission op) :
+    let s' := MEnv.runOps s ops
+    s'.2 = s.2 ∧ s'.1.l2 = s.1.l2 ∧ s'.1.records = s.1.records ∧ s'.1.tradeVols = s.1.tradeVols ∧
+    s'.1.stepSize = s.1.stepSize ∧ s'.1.nLevels = s.1.nLevels ∧ MarketExt s.1.market s'.1.market := by
+  induction ops generalizing s with
+  | nil => exact ⟨rfl, rfl, rfl, rfl, rfl, rfl, MarketExt.refl _⟩
+  | cons op rest ih =>
+    simp only [MEnv.runOps]
+    have hrest := ih (s.1.apply s.2 op).1 (fun o ho => hs o (List.mem_cons_of_mem _ ho))
+    have hop : (s.1.apply s.2 op).1.2 = s.2 ∧ (s.1.apply s.2 op).1.1.l2 = s.1.l2 ∧
+        (s.1.apply s.2 op).1.1.records = s.1.records ∧ (s.1.apply s.2 op).1.1.tradeVols = s.1.tradeVols ∧
+        (s.1.apply s.2 op).1.1.stepSize = s.1.stepSize ∧ (s.1.apply s.2 op).1.1.nLevels = s.1.nLevels ∧
+        MarketExt s.1.market (s.1.apply s.2 op).1.1.market := by
+      have := hs op List.mem_cons_self
+      cases op with
+      | submit a sd vol tr p =>
+        have hm := MarketExt.of_create s.1.market a sd vol tr p
+        simp only [MEnv.apply, MEnv.placeOrder]
+        split <;> refine ⟨?_, ?_, ?_, ?_, ?_, ?_, ?_⟩ <;> first | rfl | trivial | exact hm
+      | qcancel a id => exact ⟨rfl, rfl, rfl, rfl, rfl, rfl, MarketExt.refl _⟩
+      | qmodify a id p v => exact ⟨rfl, rfl, rfl, rfl, rfl, rfl, MarketExt.refl _⟩
+      | step => exact absurd this (by simp [IsSubmission])
+      | trading on => exact absurd this (by simp [IsSubmission])
+    obtain ⟨r1, r2, r3, r4, r5, r6, r7⟩ := hrest
+    obtain ⟨o1, o2, o3, o4, o5, o6, o7⟩ := hop
+    exact ⟨r1.trans o1, r2.trans o2, r3.trans o3, r4.trans o4, r5.trans o5, r6.trans o6, o7.trans r7⟩
+
+/-- … so every published view of every book is what it was before the submissions. -/
+theorem submissions_keep_every_view (s : MEnv × Xoro) (ops : List MEnv.EOp) (hs : ∀ op ∈ ops, IsSubmission op)
+    (a : Nat) (b : Book) (hb : s.1.market.books[a]? = some b) (n : Nat) :
+    ∃ b', (MEnv.runOps s ops).1.market.books[a]? = some b' ∧
+      b'.bidAsk = b.bidAsk ∧ b'.bidVol = b.bidVol ∧ b'.askVol = b.askVol ∧
+      b'.bidLevels n = b.bidLevels n ∧ b'.askLevels n = b.askLevels n ∧
+      b'.level1 = b.level1 ∧ b'.level2 n = b.level2 n ∧ b'.mid2 = b.mid2 ∧
+      b'.trades = b.trades ∧ b'.t = b.t ∧ b'.tradeVol = b.tradeVol := by
+  obtain ⟨_, _, _, _, _, _, hm⟩ := submissions_invisible s ops hs
+  obtain ⟨b', hb', e1, e2, e3, e4, e5, e6, _, _, _⟩ := hm.2 a b hb
+  have hv := views_depend_on_sides b b' n e1 e2 e3
+  exact ⟨b', hb', hv.1, hv.2.1, hv.2.2.1, hv.2.2.2.2.2.1, hv.2.2.2.2.2.2.1, hv.2.2.2.2.2.2.2.1,
+    hv.2.2.2.2.2.2.2.2.1, hv.2.2.2.2.2.2.2.2.2, e5, e4, e6⟩
+
+/-- **The snapshot handed to agents is the live level-2 data as of the end of the most recent step,
+along every history**: `CacheOk` holds in every state an environment reaches by submissions, queued
+instructions, switches and steps. -/
+theorem cache_always_live (s : MEnv × Xoro) (h : CacheOk s.1) (ops : List MEnv.EOp)
+    (hnf : ∀ k, k ≤ ops.length → (MEnv.runOps s (ops.take k)).1.fault = false) :
+    CacheOk (MEnv.runOps s ops).1 := by
+  induction ops generalizing s with
+  | nil => exact h
+  | cons op rest ih =>
+    simp only [MEnv.runOps]
+    have h1 : (s.1.apply s.2 op).1.1.fault = false := by
+      have := hnf 1 (by simp)
+      simpa [MEnv.runOps] using this
+    apply ih _ (cache_inv s.1 s.2 op h h1)
+    intro k hk
+    have := hnf (k + 1) (by simp; omega)
+    simpa [MEnv.runOps] using this
 
 /-- Non-vacuity: instructions that would trade / cancel / re-price immediately if applied directly
 leave the published data untouched until the step. -/
